@@ -267,6 +267,35 @@ func builtinExtensions() []string {
 	}
 }
 
+// hierarchyMatrix: an interface, an interface implementing it and an object implementing both, with
+// every combination of argument lists and of result types on the one field they share — what an
+// implementer may add or refine is decided against each interface it lists, not only the nearest.
+func hierarchyMatrix() []string {
+	argv := []string{"", "(x: Int)", "(x: Int!)", "(x: Int! = 5)", "(x: Int = 5)", "(x: String)", "(x: Int, y: Int!)", "(x: Int, y: Int)"}
+	tyv := []string{"String", "String!", "[String]", "[String!]!", "Int"}
+	var out []string
+	q := "type Query { a: A } "
+	for _, a1 := range argv {
+		for _, a2 := range argv {
+			for _, a3 := range argv {
+				out = append(out, q+"interface Base { f"+a1+": String } interface Mid implements Base { f"+a2+": String } type A implements Mid & Base { f"+a3+": String }")
+			}
+		}
+	}
+	for _, t1 := range tyv {
+		for _, t2 := range tyv {
+			for _, t3 := range tyv {
+				out = append(out, q+"interface Base { f: "+t1+" } interface Mid implements Base { f: "+t2+" } type A implements Base & Mid { f: "+t3+" }")
+			}
+		}
+	}
+	for _, impl := range []string{"Mid", "Base", "Mid & Base", "Base & Mid & Top", "Mid & Top"} {
+		out = append(out, q+"interface Top { g: Int } interface Base implements Top { f: Int g: Int } interface Mid implements Base & Top { f: Int g: Int h: Int } type A implements "+impl+" { f: Int g: Int h: Int }",
+			q+"interface Top { g: Int } interface Base implements Top { f: Int g: Int } interface Mid implements Base & Top { f: Int g: Int h: Int } type A implements "+impl+" { f: Int h: Int }")
+	}
+	return out
+}
+
 func runC07(c *core.Ctx) {
 	const thm = "C07_* (props/C07.v); model op load = Ops.dump_load_with (prelude regenerated from /repo)"
 	c.ReplayKnown()
@@ -303,6 +332,9 @@ func runC07(c *core.Ctx) {
 	// extensions of the built-in types and uses of the built-in directives: whatever a user source
 	// adds to the prelude is subject to the same rules as everything else
 	for _, sdl := range builtinExtensions() {
+		cases = append(cases, cs{[]string{sdl}, "", ""})
+	}
+	for _, sdl := range hierarchyMatrix() {
 		cases = append(cases, cs{[]string{sdl}, "", ""})
 	}
 	var nOK, nErr int64
